@@ -74,6 +74,7 @@ HARNESSES = [
     H('k_take_till_nul_long', 'kani_header.rs', ['C01', 'C04', 'C05'], bounded='slice length <= 16', tier='thorough', timeout=1800, doc='take_till(==0) at a larger bound'),
     H('k_parse_binary_entry_long', 'kani_header.rs', ['C01', 'C04', 'C05'], bounded='slice length <= 16 (all u32 counts)', tier='thorough', timeout=1800, doc='parse_binary_entry at a larger bound'),
     H('k_dec_u16_long', 'kani_header.rs', ['C01', 'C04', 'C05'], bounded='slice length <= 12 (all u32 counts)', tier='thorough', timeout=1800, doc='parse_entry_data_number<u16> at a larger bound'),
+    H('k_stripped_header', 'kani_payload.rs', ['C07', 'C09'], bounded='one concrete file index', timeout=900, doc='stripped_cpio_header: 16 bytes = magic + 8 hex digits + 2 NUL'),
     H('k_entry_short', 'kani_header.rs', ['C04'], bounded='length 15', timeout=900, doc='an input one byte short of an index entry: Err, no panic'),
     H('k_entry_short_all', 'kani_header.rs', ['C04'], bounded='lengths 0, 3, 4, 8, 12', tier='thorough', timeout=1800, doc='inputs shorter than 16 bytes: Err, no panic'),
     H('k_write_index_sink_1byte', 'kani_header.rs', ['C14'], bounded='one sink: accepts 1 byte per call, never fails (all tag/offset/count values)', doc='counterexample twin of V:IndexEntry::write_index: Ok => exactly the 16 canonical bytes'),
